@@ -29,9 +29,14 @@ TIERS = {'quick': {'runs': 1200}, 'thorough': {'seconds': 600}}
 DET_PAIRS_PER_SLOT = 3
 RULE = ("one run = one seeded history of 6..50 wallet operations (encrypt / lock / unlock with the right password, "
         "with a derived wrong password, with a searched wrong password that decrypts to valid PKCS7 padding / "
-        "decrypt / add account / change preference / save / pack+unpack / process crash / reload / crash inside "
-        "a save) over a generated account set (mnemonic-seeded HD, private-key-only, watch-only, single-address, "
-        "with channel keys) and generated passwords (ASCII, unicode with combining marks, 1..200 chars). Every "
+        "unlock with another / the empty password while the wallet is encrypted but not locked, a second unlock "
+        "request overlapping a suspended unlock(right), another task saving while unlock is suspended / "
+        "decrypt / add account / remove account / change preference / save / pack+unpack / process crash / reload / "
+        "crash inside a save) over a generated account set (mnemonic-seeded HD with the seed phrase in canonical or "
+        "user spelling [capitalised, upper-case, title-case, trailing full stop, extra spaces, Spanish word list, "
+        "free text], private-key-only, watch-only, single-address, with channel keys) and generated passwords "
+        "(ASCII, unicode with combining marks, 1..200 chars), on a file system with POSIX or (15 % of runs) Windows "
+        "rename semantics. Every "
         "save is crash-enumerated: re-executed once per crash point (before and after each SimFS operation) x "
         "2 namespace models x journal prefixes x torn variants of un-synced data, each distinct post-crash image "
         "read back with the real WalletStorage.read(). Non-trivial = at least one save was crash-enumerated; "
@@ -49,7 +54,9 @@ COMPONENTS = {
              'event loop (SimLoop, virtual time)'],
 }
 ASSUMPTIONS = [
-    'crashes only: no injected I/O errors (the remove+rename fallback after a failing rename is outside the quantifier)',
+    'crashes only: no injected I/O errors (no EIO/ENOSPC); the file system follows POSIX rename semantics or, per '
+    'run, Windows semantics (os.rename raises FileExistsError when the destination exists, os.replace overwrites '
+    'atomically; sharing violations of open files are not modelled)',
     'between two history operations enough time passes for write-back and journal commit (SimFS.settle): only the '
     'effects of the interrupted save are uncertain at a crash',
     'un-synced data survive as an arbitrary byte prefix; a truncate+rewrite survives as the old content or a prefix '
@@ -57,10 +64,12 @@ ASSUMPTIONS = [
     'namespace model a: directory operations durable immediately, rename is a data barrier for the renamed file; '
     'model b: rename/create can be persisted without the data they expose, and a suffix of namespace operations '
     'can be lost (nothing fsyncs the directory)',
-    'the wrong-password clause is asserted for wallets with at least one encrypted secret-bearing account; a '
-    'watch-only account has nothing to decrypt and accepts any password (noted, not a finding)',
+    'a password is "wrong" only if some encrypted secret-bearing account was encrypted under another one: a wallet '
+    'whose only encrypted accounts are watch-only has nothing to decrypt and accepts any password (noted, not a '
+    'finding); after a refusal EVERY account, watch-only included, must be as before',
     'channel certificates are stored in clear by design and are excluded from the plaintext scan',
-    'unlock is only issued on a locked wallet (unlock of an unlocked wallet just records the password)',
+    'unlock with another password on a wallet that is encrypted but not locked may answer anything, but must leave '
+    'the wallet (accounts and the password used by later saves / lock) unchanged',
     '"fails to unlock" = Wallet.unlock returns False or raises InvalidPasswordError/ValueError',
     'schedules: one other task may call Wallet.save() while unlock(right password) is suspended in the database '
     '(encryption is enabled and the user has supplied the password: that save must not write secrets in clear)',
@@ -78,6 +87,9 @@ EXPECTED_PROBES = [
     'ns_journal_prefixes', 'completed_save_verified', 'remove_account', 'pid_changed', 'crash_left_temp_file',
     'stale_tmp_at_save', 'stale_tmp_reused', 'stale_tmp_longer_than_new', 'crash_in_save_pre_rename',
     'crash_in_save_post_write', 'crash_in_save_mid_write', 'race_save_during_unlock',
+    'acct_seed_noncanonical_text', 'unlock_right_noncanonical_seed_text', 'unlock_other_pw_on_unlocked_wallet',
+    'unlock_empty_pw_on_unlocked_wallet', 'overlapping_unlock', 'refused_unlock_all_accounts_compared',
+    'fs_posix', 'fs_windows', 'windows_rename_refused',
 ]
 
 def extra_coverage(cov):
@@ -171,6 +183,8 @@ def _gen_pref(r):
 
 _WRONG_VARIANTS = ['other', 'previous', 'previous', 'trunc', 'append', 'swapcase', 'norm', 'bump', 'prefix_space',
                    'empty', 'double']
+# spellings of a seed phrase that Account.from_dict accepts (Mnemonic.mnemonic_to_seed normalises any text)
+_SEED_TEXTS = ['capitalize', 'upper', 'title', 'fullstop', 'spaces', 'spanish', 'free']
 
 
 def gen(run_seed, tier):
@@ -335,7 +349,31 @@ def gen(run_seed, tier):
     for op in ops:
         if op['op'] == 'unlock' and op.get('pw') == 'right' and rr.random() < 0.35:
             op['race_save'] = rr.choice([1, 1, 2, 2, 3, 5, 8])
-    return {'family': family, 'pid_mode': r.choices(['same', 'change'], [3, 1])[0],
+    # the features below draw from their own streams, so everything generated above stays what it was
+    # (a) seed phrases as users type them: not the canonical lower-case English spelling
+    rs = stream('C13.gen.seedtext', run_seed)
+    for spec in accounts + [op['spec'] for op in ops if op['op'] == 'add_account']:
+        if spec['kind'] == 'seed' and rs.random() < 0.15:
+            spec['seedtext'] = rs.choice(_SEED_TEXTS)
+    # (b) unlock(some other password) on a wallet that is encrypted but NOT locked (nothing to decrypt)
+    ru = stream('C13.gen.unlock_unlocked', run_seed)
+    with_extra = []
+    for op in ops:
+        with_extra.append(op)
+        if (op['op'] == 'encrypt' or (op['op'] == 'unlock' and op.get('pw') == 'right')) and ru.random() < 0.12:
+            with_extra.append({'op': 'unlock_unlocked', 'alt': ru.randrange(len(passwords)),
+                               'variant': ru.choice(['other', 'other', 'empty', 'empty', 'previous', 'trunc', 'append',
+                                                     'swapcase', 'norm', 'double'])})
+    ops = with_extra
+    # (c) a second unlock request with another password while unlock(right password) is suspended in the database
+    ro = stream('C13.gen.race_unlock', run_seed)
+    for op in ops:
+        if op['op'] == 'unlock' and op.get('pw') == 'right' and 'race_save' not in op and ro.random() < 0.15:
+            op['race_unlock'] = {'k': ro.choice([1, 1, 2, 3, 5]), 'alt': ro.randrange(len(passwords)),
+                                 'variant': ro.choice(['other', 'trunc', 'append', 'swapcase', 'empty', 'bump'])}
+    # (d) the platform the fallback in WalletStorage.write exists for: rename never replaces an existing file
+    fs_semantics = 'windows' if stream('C13.gen.fs', run_seed).random() < 0.15 else 'posix'
+    return {'family': family, 'fs_semantics': fs_semantics, 'pid_mode': r.choices(['same', 'change'], [3, 1])[0],
             'chunk': r.choice([512, 1024, 4096, 4096, 4096, 8192, 65536]),
             'bufsize': r.choice([8192, 8192, 4096, 1 << 20]), 'tear_extra': r.choice([1, 2, 4]),
             'accounts': accounts, 'passwords': passwords, 'ops': ops}
@@ -349,6 +387,8 @@ def shrink(sc):
         yield dict(sc, accounts=accs[:i] + accs[i + 1:])
     for i, a in enumerate(accs):
         simple = {'kind': a['kind'], 'entropy': a['entropy'], 'gen': 'default', 'certs': 0}
+        if a.get('seedtext'):
+            simple['seedtext'] = a['seedtext']
         if a != simple:
             yield dict(sc, accounts=accs[:i] + [simple] + accs[i + 1:])
     plain = [f'pw{i}' for i in range(len(sc.get('passwords', [])))]
@@ -356,6 +396,17 @@ def shrink(sc):
         yield dict(sc, passwords=plain)
     if sc.get('pid_mode', 'same') != 'same':
         yield dict(sc, pid_mode='same')
+    if sc.get('fs_semantics', 'posix') != 'posix':
+        yield dict(sc, fs_semantics='posix')
+    for i, a in enumerate(accs):
+        if a.get('seedtext'):
+            yield dict(sc, accounts=accs[:i] + [{k: v for k, v in a.items() if k != 'seedtext'}] + accs[i + 1:])
+    for i, op in enumerate(sc['ops']):
+        for extra in ('race_save', 'race_unlock'):
+            if extra in op:
+                ops = list(sc['ops'])
+                ops[i] = {k: v for k, v in op.items() if k != extra}
+                yield dict(sc, ops=ops)
     if sc.get('chunk') != 4096:
         yield dict(sc, chunk=4096)
     if sc.get('bufsize') != 8192:
@@ -414,6 +465,27 @@ def _mnemonic_seed(entropy):
         if len(_SEED_CACHE) > 4096:
             _SEED_CACHE.clear()
         _SEED_CACHE[entropy] = phrase
+    return phrase
+
+
+def _seed_text(phrase, variant, entropy):
+    """The generated mnemonic `phrase` the way a user may type / import it.  Every result is accepted by
+    Account.from_dict (some derive other keys than the canonical phrase: it is simply another seed)."""
+    if variant == 'capitalize':
+        return phrase.capitalize()
+    if variant == 'upper':
+        return phrase.upper()
+    if variant == 'title':
+        return phrase.title()
+    if variant == 'fullstop':
+        return phrase + '.'
+    if variant == 'spaces':
+        return ' ' + phrase.replace(' ', '  ', 3) + ' '
+    if variant == 'spanish':
+        from lbry.wallet.words import spanish
+        return ' '.join(spanish.words[(entropy >> (11 * i)) % len(spanish.words)] for i in range(12))
+    if variant == 'free':
+        return f'foobar {entropy % 1000003}'
     return phrase
 
 
@@ -538,8 +610,11 @@ def execute(scenario, keep_trace=False):
 
     base_pid = 4242
     pid_changes = scenario.get('pid_mode', 'same') == 'change'
-    fs0 = SimFS(chunk=scenario.get('chunk', 4096), bufsize=scenario.get('bufsize', 8192), pid=base_pid)
+    fs_semantics = 'windows' if scenario.get('fs_semantics') == 'windows' else 'posix'
+    fs0 = SimFS(chunk=scenario.get('chunk', 4096), bufsize=scenario.get('bufsize', 8192), pid=base_pid,
+                semantics=fs_semantics)
     fs0.mkdir(WALLET_DIR)
+    P['fs_' + fs_semantics] += 1
     del SimFSError.raised[:]
     mount = Mount(fs0).install(wmod)
 
@@ -589,7 +664,7 @@ def execute(scenario, keep_trace=False):
         d = {'ledger': ledger.get_id()}
         root = PrivateKey.from_seed(ledger, hashlib.sha256(b'C13-key-%d' % entropy).digest())
         if kind == 'seed':
-            d['seed'] = _mnemonic_seed(entropy)
+            d['seed'] = _seed_text(_mnemonic_seed(entropy), spec.get('seedtext'), entropy)
         elif kind == 'key':
             d['private_key'] = root.extended_key_string()
             d['public_key'] = root.public_key.extended_key_string()
@@ -620,6 +695,8 @@ def execute(scenario, keep_trace=False):
         pk = acc.private_key
         orig = {
             'kind': kind, 'single': spec.get('gen') == 'single',
+            'seedtext': (spec.get('seedtext') if spec.get('seedtext') in _SEED_TEXTS else 'canonical')
+            if kind == 'seed' else '-',
             'seed': acc.seed if kind == 'seed' else '',
             'xprv': pk.extended_key_string() if pk is not None else None,
             'hex': pk.private_key_bytes.hex() if pk is not None else None,
@@ -635,6 +712,8 @@ def execute(scenario, keep_trace=False):
             raise RuntimeError('harness: account kind / private key mismatch')
         M.accounts.append(_MAcct(orig, None))
         P['acct_' + kind] += 1
+        if orig['seedtext'] not in ('canonical', '-'):
+            P['acct_seed_noncanonical_text'] += 1
         if orig['single']:
             P['acct_single'] += 1
         if spec.get('certs'):
@@ -723,6 +802,9 @@ def execute(scenario, keep_trace=False):
                        ('privkey_hex', o['hex'].upper().encode())]
             if o['seed']:
                 needles.append(('seed', o['seed'].encode()))
+                escaped = json.dumps(o['seed'])[1:-1].encode()     # how json.dumps writes a non-ASCII phrase
+                if escaped != needles[-1][1]:
+                    needles.append(('seed', escaped))
             for what, needle in needles:
                 for path, content in streams:
                     if needle in content:
@@ -812,6 +894,10 @@ def execute(scenario, keep_trace=False):
                                f'verified: {type(e).__name__}: {e}')
         if not old_exists:
             P['first_save_no_previous_file'] += 1
+        if ref.rename_refused:
+            P['windows_rename_refused'] += 1     # os.rename refused the existing wallet file: the fallback ran
+        if any(name == 'replace' for name, _, _ in ref_log):
+            P['save_used_os_replace'] += 1
         if sum(1 for name, _, _ in ref_log if name in ('pwrite', 'os.write')) > 1:
             P['multi_chunk_save'] += 1
         verdicts = {}
@@ -824,7 +910,7 @@ def execute(scenario, keep_trace=False):
             opname = ref_log[k - 1][0]
             where = (f'{label} #{save_no}: crash {when} operation {k}/{n_ops} ({opname}), namespace model {model}, '
                      f'journal prefix {ns_keep}, un-synced bytes kept {keep}')
-            site = dict(op=opname, when=when, model=model)
+            site = dict(op=opname, when=when, model=model, fs=fs_semantics)
             if content is None:
                 if old_exists:
                     bad('C13.torn_save', f'{where}: the wallet file no longer exists (previous version had '
@@ -939,7 +1025,8 @@ def execute(scenario, keep_trace=False):
         # structural crash points: the temporary copy is (partly) written, the rename has not happened
         names = [name for _, name, _, _ in ref.log]
         writes = [i + 1 for i, nm in enumerate(names) if nm in ('pwrite', 'os.write')]
-        moves = [i + 1 for i, (_, nm, path, _) in enumerate(ref.log) if nm == 'rename' and path == WALLET_PATH]
+        moves = [i + 1 for i, (_, nm, path, _) in enumerate(ref.log)
+                 if nm in ('rename', 'replace') and path == WALLET_PATH]
         at = op.get('at')
         if at == 'pre_rename' and moves:
             k, when = moves[0], 'before'
@@ -990,18 +1077,60 @@ def execute(scenario, keep_trace=False):
         else:
             state = 'missing' if content is None else 'empty' if not content else 'other'
             bad('C13.torn_save', f'{where}: wallet file is neither the previous nor the new version '
-                f'({None if content is None else len(content)} bytes)', state=state, op=opname, when=when, model=model)
+                f'({None if content is None else len(content)} bytes)', state=state, op=opname, when=when, model=model,
+                fs=fs_semantics)
         run.ev('save_crash', k, when, model, keep, ns_keep, outcome)
 
     # ---- unlock ---------------------------------------------------------------------------------
     def model_unlock(pw):
+        """A password that does not open every encrypted secret-bearing account is refused and nothing changes."""
         for a in M.accounts:
-            if a.enc is not None:
-                if a.secret and a.enc != pw:
-                    return False
-                a.enc = None
+            if a.enc is not None and a.secret and a.enc != pw:
+                return False
+        for a in M.accounts:
+            a.enc = None
         M.password = pw
         return True
+
+    def serialised(wallet):
+        return [(bool(a.encrypted), json.dumps(a.to_dict(), sort_keys=True)) for a in wallet.accounts]
+
+    def other_password(right, op):
+        variant = op.get('variant', 'other')
+        if variant == 'previous' and M.previous_password not in (None, right):
+            P['wrong_pw_previous_password'] += 1
+            return M.previous_password, variant
+        return _wrong_password(right, variant, passwords[int(op.get('alt', 0)) % len(passwords)]), variant
+
+    async def do_unlock_unlocked(wallet, op, n):
+        """unlock(another password) on a wallet that has a password and nothing to decrypt: whatever it returns,
+        the wallet -- including the password later saves and lock() encrypt with -- must stay as it was."""
+        if m_locked() or M.password is None:
+            P['skipped_op'] += 1
+            return
+        pw, variant = other_password(M.password, op)
+        note_password(pw)
+        before = serialised(wallet)
+        pw_before = wallet.encryption_password
+        try:
+            res = await wallet.unlock(pw)
+        except (InvalidPasswordError, ValueError) as e:
+            res = type(e).__name__
+        except Exception as e:  # noqa
+            unexpected('unlock_unlocked', e)
+        run.ev('unlock_unlocked', n, variant, res if isinstance(res, str) else bool(res))
+        P['unlock_other_pw_on_unlocked_wallet'] += 1
+        if pw == '':
+            P['unlock_empty_pw_on_unlocked_wallet'] += 1
+        if wallet.encryption_password != pw_before:
+            bad('C13.password_adopted', f'the wallet was encrypted with a password and is unlocked; unlock() with '
+                f'{"the empty string" if pw == "" else "another password"} ({variant}) returned {res!r} and replaced '
+                f'Wallet.encryption_password: later saves / lock() encrypt with a password the user never chose'
+                f'{" (the empty string: secrets are written in clear)" if pw == "" else ""}, the original password is '
+                f'refused after a restart', state='unlocked', empty=pw == '')
+        if wallet.is_locked or serialised(wallet) != before:
+            bad('C13.wrong_password_mutated', f'unlock() with another password ({variant}) on an unlocked wallet '
+                f'changed its accounts', field='serialised', acct='-')
 
     def find_valid_padding_password(wallet, right):
         for acc, m in zip(wallet.accounts, M.accounts):
@@ -1018,6 +1147,8 @@ def execute(scenario, keep_trace=False):
 
     async def do_unlock(wallet, op, n):
         if not m_locked():
+            if op.get('pw') == 'wrong' and M.password is not None:
+                return await do_unlock_unlocked(wallet, op, n)     # the wallet is open: still "another password"
             P['skipped_op'] += 1
             return
         right = right_password()
@@ -1037,12 +1168,7 @@ def execute(scenario, keep_trace=False):
             else:
                 P['unlock_wrong_valid_padding'] += 1
         else:
-            variant = op.get('variant', 'other')
-            if variant == 'previous' and M.previous_password not in (None, right):
-                pw = M.previous_password
-                P['wrong_pw_previous_password'] += 1
-            else:
-                pw = _wrong_password(right, variant, passwords[int(op.get('alt', 0)) % len(passwords)])
+            pw, variant = other_password(right, op)
             if variant == 'norm' and unicodedata.normalize('NFKC', pw) == unicodedata.normalize('NFKC', right):
                 P['wrong_pw_normalization_variant'] += 1
         note_password(pw)
@@ -1052,6 +1178,9 @@ def execute(scenario, keep_trace=False):
                 watch_first = not a.secret
                 break
         before = [(a.seed, a.private_key_string, a.encrypted, a.private_key is None) for a in wallet.accounts]
+        ser_before = serialised(wallet)
+        seedtext = next((m.orig['seedtext'] for m in M.accounts if m.enc is not None and m.secret and
+                         m.orig['seedtext'] not in ('canonical', '-')), 'canonical')
         pw_before = wallet.encryption_password
         was = [m.enc is not None and m.secret for m in M.accounts]
         model_pw_before = M.password
@@ -1081,6 +1210,23 @@ def execute(scenario, keep_trace=False):
                 race['pref_after'] = bool(wallet.preferences.get(ENCRYPT_ON_DISK, False))
                 race['locked_at_save'] = wallet.is_locked
             racer = asyncio.ensure_future(race_save(int(op['race_save'])))
+        second = None
+        if racer is None and expected and right is not None and isinstance(op.get('race_unlock'), dict):
+            q, q_variant = other_password(right, op['race_unlock'])
+
+            async def race_unlock(k):
+                for _ in range(k):
+                    await asyncio.sleep(0)
+                if race['done']:
+                    P['race_unlock_after_unlock'] += 1
+                    return
+                try:
+                    race['second'] = bool(await wallet.unlock(q))
+                except (InvalidPasswordError, ValueError) as e:
+                    race['second'] = type(e).__name__
+                except Exception as e:  # noqa
+                    race['error'] = e
+            second = asyncio.ensure_future(race_unlock(int(op['race_unlock'].get('k', 1))))
         try:
             res = await wallet.unlock(pw)
         except (InvalidPasswordError, ValueError) as e:
@@ -1105,6 +1251,20 @@ def execute(scenario, keep_trace=False):
                         'suspended switched the encrypt-on-disk preference off', secret='pref', acct='-')
                 model_save()
                 race['fs'].settle()
+        if second is not None:
+            await second
+            if race['error'] is not None:
+                unexpected('overlapping_unlock', race['error'])
+            if 'second' in race:
+                # the first request supplied the password that decrypted the accounts; the overlapping one found
+                # nothing left to decrypt: whatever it answers, it must not become the wallet's password
+                P['overlapping_unlock'] += 1
+                run.ev('overlapping_unlock', n, q_variant, race['second'], bool(res))
+                if res and wallet.encryption_password != pw:
+                    bad('C13.password_adopted', f'unlock(right password) was suspended in the database; a second '
+                        f'unlock request with another password ({q_variant}) returned {race["second"]!r} and its '
+                        f'password replaced the right one as Wallet.encryption_password', state='overlapping_unlock',
+                        empty=q == '')
         run.ev('unlock', n, flavour, bool(res), raised, wallet.is_locked)
         sync_watch_flags(wallet)
         if not expected:
@@ -1125,13 +1285,29 @@ def execute(scenario, keep_trace=False):
             if wallet.encryption_password != pw_before:
                 bad('C13.wrong_password_mutated', f'a refused unlock ({flavour}) changed Wallet.encryption_password',
                     field='encryption_password', acct='-')
+            # "... and leaves the wallet locked and unchanged": every account, secret-bearing or not
+            for acc, b, now, m in zip(wallet.accounts, ser_before, serialised(wallet), M.accounts):
+                if b[0] != now[0]:
+                    bad('C13.wrong_password_mutated', f'a refused unlock ({flavour}) left the `encrypted` flag of a '
+                        f'{m.orig["kind"]} account {"set" if now[0] else "cleared"} (accounts before it in the wallet '
+                        f'were opened and not locked again)', field='encrypted', acct=m.orig['kind'])
+                if b[1] != now[1]:
+                    bad('C13.wrong_password_mutated', f'a refused unlock ({flavour}) changed the serialised form of a '
+                        f'{m.orig["kind"]} account', field='serialised', acct=m.orig['kind'])
+            P['refused_unlock_all_accounts_compared'] += 1
             M.last_unlock_failed = True
             return
         if right is not None:
             P['unlock_right'] += 1
             if not res:
+                # Wallet.unlock stops at the first account it cannot open: that one is the culprit
+                culprit = next((m.orig for acc, m in zip(wallet.accounts, M.accounts) if acc.encrypted and m.secret),
+                               None)
                 bad('C13.unlock_mismatch', f'unlock with the right password was refused (returned {res!r}, '
-                    f'raised {raised})', field='result', acct='-')
+                    f'raised {raised}); the account that stays encrypted is a '
+                    f'{culprit["kind"] if culprit else "?"} account, seed text: '
+                    f'{culprit["seedtext"] if culprit else "?"}', field='result',
+                    acct=culprit['kind'] if culprit else '-', seedtext=culprit['seedtext'] if culprit else '-')
         elif not res:
             M.password = model_pw_before
             return  # watch-only flag and a refusal: outside the statement either way
@@ -1139,6 +1315,8 @@ def execute(scenario, keep_trace=False):
             bad('C13.unlock_mismatch', 'unlock returned True but the wallet is still locked', field='is_locked', acct='-')
         compare_clear_accounts(wallet, 'C13.unlock_mismatch', 'after unlock with the right password')
         if right is not None:
+            if seedtext != 'canonical':
+                P['unlock_right_noncanonical_seed_text'] += 1
             if M.last_unlock_failed:
                 P['unlock_after_wrong_ok'] += 1
             if M.reloaded_locked:
@@ -1253,6 +1431,8 @@ def execute(scenario, keep_trace=False):
                 run.ev('lock', n, wallet.is_locked)
             elif kind == 'unlock':
                 await do_unlock(wallet, op, n)
+            elif kind == 'unlock_unlocked':
+                await do_unlock_unlocked(wallet, op, n)
             elif kind == 'add_account':
                 if len(M.accounts) >= 6:
                     P['skipped_op'] += 1
